@@ -28,6 +28,12 @@ from grid.basegrid import Grid, OneDGrid
 from .utils import ANGSTROM_TO_BOHR
 
 
+def _sorted_spline(x, y):
+    x = np.asarray(x)
+    order = np.argsort(x)
+    return CubicSpline(x[order], np.asarray(y)[order])
+
+
 class _HyperRectangleGrid(Grid):
     def __init__(self, points, weights, shape):
         r"""Construct the _HyperRectangleGrid class.
@@ -173,7 +179,7 @@ class _HyperRectangleGrid(Grid):
             # The `1` and `self.num_puts[2] - 2` is needed because I don't want the boundary.
             small_index = self.coordinates_to_index((x_index, y_index, 1))
             large_index = self.coordinates_to_index((x_index, y_index, self.shape[2] - 2))
-            val = CubicSpline(
+            val = _sorted_spline(
                 self.points[small_index:large_index, 2],
                 values[small_index:large_index],
             )(z, nu_z)
@@ -183,7 +189,7 @@ class _HyperRectangleGrid(Grid):
         def y_splines(y, x_index, z, nu_y=nu_y):
             # The `1` and `self.num_puts[1] - 2` is needed because I don't want the boundary.
             # Assumes x_index is in the grid while y, z may not be.
-            val = CubicSpline(
+            val = _sorted_spline(
                 self.points[np.arange(1, self.shape[1] - 2) * self.shape[2], 1],
                 [z_spline(z, x_index, y_index, nu_z) for y_index in range(1, self.shape[1] - 2)],
             )(y, nu_y)
@@ -195,7 +201,7 @@ class _HyperRectangleGrid(Grid):
 
         # Interpolate the point (x, y, z) from a list of interpolated points on x,y-axis.
         def x_spline(x, y, z, nu_x):
-            val = CubicSpline(
+            val = _sorted_spline(
                 self.points[np.arange(1, self.shape[0] - 2) * self.shape[1] * self.shape[2], 0],
                 [y_splines(y, x_index, z, nu_y) for x_index in range(1, self.shape[0] - 2)],
             )(x, nu_x)
